@@ -449,7 +449,7 @@ def _simple_rule(name: str, category: str, conditions: str, extra: str = "") -> 
     return f"RULE {name} CATEGORY {category} {extra} CUTOFF 10 NEIGHBOURHOOD 5 CONDITIONS {conditions} "
 
 
-ILLFORMED_KINDS = ['unknown_profile', 'unknown_category', 'duplicate_rule', 'duplicate_alias', 'alias_named_profile', 'alias_named_rule', 'alias_named_category', 'repeated_and', 'repeated_or', 'repeated_group', 'repeated_minimum', 'repeated_superior', 'missing_category', 'missing_cutoff', 'missing_neighbourhood', 'missing_conditions', 'paren_removed', 'paren_added', 'only_negated', 'only_negated_and', 'only_negated_group', 'superior_undefined', 'superior_later', 'reserved_cluster', 'reserved_score', 'cds_single', 'generated_unknown_profile', 'generated_paren', 'generated_duplicate_rule', 'unknown_profile_in_cds', 'unknown_profile_in_minimum', 'unknown_profile_in_minscore', 'unknown_profile_in_extenders', 'unknown_profile_in_extenders_cds', 'empty_text', 'alias_without_value', 'not_at_end', 'trailing_operator', 'minimum_zero']
+ILLFORMED_KINDS = ['unknown_profile', 'unknown_category', 'duplicate_rule', 'duplicate_alias', 'alias_named_profile', 'alias_named_rule', 'alias_named_category', 'repeated_and', 'repeated_or', 'repeated_group', 'repeated_minimum', 'repeated_superior', 'missing_category', 'missing_cutoff', 'missing_neighbourhood', 'missing_conditions', 'paren_removed', 'paren_added', 'only_negated', 'only_negated_and', 'only_negated_group', 'superior_undefined', 'superior_later', 'reserved_cluster', 'reserved_score', 'cds_single', 'generated_unknown_profile', 'generated_paren', 'generated_duplicate_rule', 'unknown_profile_in_cds', 'unknown_profile_in_minimum', 'unknown_profile_in_minscore', 'unknown_profile_in_extenders', 'unknown_profile_in_extenders_cds', 'empty_text', 'alias_without_value', 'not_at_end', 'trailing_operator', 'minimum_zero', 'unknown_profile_via_alias', 'unknown_profile_via_alias_group', 'unknown_profile_via_nested_alias', 'unknown_profile_via_alias_other_file']
 
 
 @st.composite
@@ -482,6 +482,15 @@ def illformed_files(draw, kind: str) -> dict:
         files = [_simple_rule("second", category, f"{a} or")]
     elif kind == "minimum_zero":
         files = [_simple_rule("second", category, f"minimum(0, [{a}, {b}])")]
+    elif kind == "unknown_profile_via_alias":
+        files = ["DEFINE spooky AS zzUnknownProfile\n" + good + _simple_rule("second", category, f"{a} and spooky")]
+    elif kind == "unknown_profile_via_alias_group":
+        files = [good + f"DEFINE spooky AS ({b} or zzUnknownProfile)\n" + _simple_rule("second", category, f"{a} and spooky")]
+    elif kind == "unknown_profile_via_nested_alias":
+        files = ["DEFINE inner AS zzUnknownProfile\nDEFINE outer AS cds(" + f"{a} and inner)\n"
+                 + _simple_rule("second", category, f"outer or {b}")]
+    elif kind == "unknown_profile_via_alias_other_file":
+        files = ["DEFINE spooky AS zzUnknownProfile\n" + good, _simple_rule("second", category, f"{a} or spooky")]
     elif kind == "unknown_category":
         files = [_simple_rule("second", "zzNoSuchCategory", a)]
     elif kind == "duplicate_rule":
